@@ -362,3 +362,12 @@ def audit_gen_required_nested(ctx):
 
 
 GENERATORS = list(globals().get("GENERATORS", [])) + [audit_gen_required_nested]
+
+
+# --- W30 (message-level static length with BYTE-SIZE structures: length law on descriptions): OdxVerif.Props.C08Nested2b imports
+# Props.C08Nested3, so it takes its place as the separately built + audited module (audit_nested builds it, which builds the whole chain).
+NESTED_TARGET = "OdxVerif.Props.C08Nested2b"
+EXTRA_LEAN_TARGETS = EXTRA_LEAN_TARGETS + [NESTED_TARGET]
+NESTED_THEOREMS = NESTED_THEOREMS + ["OdxVerif.Codec." + t for t in [
+    "C08_static_length_bytesize_msg_partial", "static_length_lenPs", "PDesc.structBS_lenP", "PDesc.Static.lenP", "LenPs.enc_length",
+    "LenPs.static_eq", "StaticTop.sound", "StaticTops.sound", "zDesc_static"]]
